@@ -62,6 +62,13 @@ def _twin_names(n, style, ch):
     return [f"{style}{i}" for i in ch.shuffle(n)]
 
 
+def _rename_only(n, ch):
+    """New names whose lexical order is unrelated to the file order (reversed or shuffled)."""
+    if ch.pick(2):
+        return [f"A{999 - i:03d}" for i in range(n)]
+    return [f"M{j:03d}" for j in ch.shuffle(n)]
+
+
 def _read(text):
     from pdb2pqr.ligand.mol2 import Mol2Molecule
 
@@ -127,6 +134,18 @@ def check_mol(case):
                     f"renaming ({case['rename']}) beyond symmetry classes; features {sorted(m.features)}")  # fmt: skip
         else:
             res.label("differs-within-symmetry-classes")
+    # rename-only twin (same atom order, bonds, endpoints): charges may not depend on names AT ALL
+    names3 = _rename_only(n, p)
+    try:
+        mol3 = _read(molgen.to_mol2(m, names3))
+        mol3.assign_parameters()
+        q3 = [mol3.atoms[names3[i]].charge for i in range(n)]
+        if max(abs(a - b) for a, b in zip(q, q3)) > 1e-12:
+            i = max(range(n), key=lambda k: abs(q[k] - q3[k]))
+            res.bad("C16:mol:name-dependent", f"only the atom names differ, yet atom #{i} ({m.atoms[i]['type']}) has charge "
+                    f"{q[i]:.4f} vs {q3[i]:.4f}; features {sorted(m.features)}")  # fmt: skip
+    except Exception as e:  # noqa: BLE001
+        res.bad(f"C16:mol:twin-exception:{type(e).__name__}", f"renamed twin rejected: {e!r}")
     rings = bool(m.features & {"phenyl", "pyridyl", "cyclohexyl"})
     res.nontrivial = abs(exp_total) > 0 or rings
     res.label("charged" if abs(exp_total) > 0 else "neutral", "ring" if rings else "acyclic", f"rename={case['rename']}",
@@ -235,6 +254,19 @@ def check_repo(case):
                     f"permutation/renaming (atoms permuted: {case['permute_atoms']})")  # fmt: skip
         else:
             res.label("differs-within-symmetry-classes")
+    # rename-only twin: same order, same bonds - exact equality, symmetric atoms included
+    names3 = _rename_only(n, p)
+    ident = list(range(n))
+    try:
+        mol3 = _read(_write_mol2(atoms, bonds, ident, list(range(len(bonds))), [0], names3))
+        mol3.assign_parameters()
+        q3 = [mol3.atoms[names3[i]].charge for i in range(n)]
+        if max(abs(a - b) for a, b in zip(q, q3)) > 1e-12:
+            i = max(range(n), key=lambda k: abs(q[k] - q3[k]))
+            res.bad("C16:repo:name-dependent", f"{path.name}: only the atom names differ, yet atom #{i} ({names[i]} -> {names3[i]}) "
+                    f"has charge {q[i]:.4f} vs {q3[i]:.4f}")  # fmt: skip
+    except Exception as e:  # noqa: BLE001
+        res.bad(f"C16:repo:twin-exception:{type(e).__name__}", f"{path.name} renamed: {e!r}")
     res.nontrivial = True
     res.label(path.name)
     return res
@@ -248,6 +280,7 @@ def complex_case(draw):
     return dict(part="complex", chain=ch, choices=draw(st.lists(st.integers(0, 10**6), min_size=24, max_size=60)),
                 naming=draw(st.sampled_from(["default", "collide", "collide"])),
                 nwat=draw(st.integers(0, 3)), other=draw(st.booleans()), ff=draw(st.sampled_from(["AMBER", "PARSE", "CHARMM", "SWANSON"])),
+                lig_alt=draw(st.sampled_from(["none", "none", "some", "all"])),
                 lig_first=draw(st.booleans()), opts=draw(st.sampled_from([[], ["--noopt"], ["--nodebump"], ["--whitespace"]])))  # fmt: skip
 
 
@@ -271,9 +304,22 @@ def check_complex(case):
     s = build.materialise(dict(chains=[case["chain"]]))
     lig_recs = []
     shift = np.array([25.0, 25.0, 25.0])
+    lig_alt = case.get("lig_alt", "none")
+    grouped = []
     for i in range(n):
-        lig_recs.append(dict(name=names[i], resn="LIG", chain="L", seq=500, xyz=np.array(molgen.coords(i)) + shift,
-                             rec="HETATM", group=("lig", i)))  # fmt: skip
+        rec = dict(name=names[i], resn="LIG", chain="L", seq=500, xyz=np.array(molgen.coords(i)) + shift,
+                   rec="HETATM", group=("lig", i))  # fmt: skip
+        if lig_alt == "all" or (lig_alt == "some" and i % 3 == 1):
+            # alternate locations on ligand atoms: the first listed one counts, each atom is written once
+            lig_recs.append(dict(rec, alt="A"))
+            second = dict(rec, alt="B", xyz=rec["xyz"] + 0.3)
+            if lig_alt == "all":
+                grouped.append(second)  # complete second conformer listed after the first
+            else:
+                lig_recs.append(second)
+        else:
+            lig_recs.append(rec)
+    lig_recs += grouped
     wat_recs = [dict(name="O", resn="HOH", chain="W", seq=600 + k, xyz=np.array([40.0 + 4 * k, 10.0, 10.0]), rec="HETATM",
                      group=("water", "W", 600 + k)) for k in range(case["nwat"])]  # fmt: skip
     other = []
@@ -287,7 +333,8 @@ def check_complex(case):
     r = pipeline.run(s.text(), opts, extra_files={"lig.mol2": mol_text})
     collide = case["naming"] == "collide"
     res.nontrivial = collide or abs(sum(a["formal"] for a in m.atoms)) > 0
-    res.label(f"ff={case['ff']}", f"naming={case['naming']}", f"waters={case['nwat']}", "other-het" if case["other"] else "no-other")
+    res.label(f"ff={case['ff']}", f"naming={case['naming']}", f"waters={case['nwat']}", "other-het" if case["other"] else "no-other",
+              f"ligand-altloc={lig_alt}")  # fmt: skip
     if not r.ok:
         res.label("run-failed")
         res.nontrivial = False
